@@ -178,6 +178,13 @@ class _Hoist(ast.NodeTransformer):
 
     """f(a if c else b) -> (f(a) if c else f(b)) for single-argument calls; not (not x) -> x; not (a == b) -> a != b"""
 
+    def visit_Attribute(self, node):
+        self.generic_visit(node)
+        # math.inf is float('inf')
+        if node.attr == 'inf' and isinstance(node.value, ast.Name) and node.value.id == 'math' and isinstance(node.ctx, ast.Load):
+            return ast.Call(func=ast.Name(id='float', ctx=ast.Load()), args=[ast.Constant(value='inf')], keywords=[])
+        return node
+
     def visit_Call(self, node):
         self.generic_visit(node)
         if isinstance(node.func, ast.Name) and node.func.id == 'map' and len(node.args) == 2 and not node.keywords \
